@@ -235,6 +235,10 @@ func runC17(c *Ctx) {
 		c.Ob("C17-D3", "eio.GenerateBase64ID/seq-in-id", gb.Pos(), len(pu) == 1 && Term(pu[0].Arg(1)) == "eio.base64IDSeq", "the sequence number must be written into the id bytes")
 	}
 
+	c.Rule("C17-D6", "a session is found only in its own server's table: every value socketStore.get can return is nil or a lookup in the store's map made under its mutex — a remembered 'last session' "+
+		"(worse: one shared by all servers of the process) answers for a sid the table does not hold: a closed session is served again, or server B serves server A's session", 1)
+	lookupsFromGuardedMaps(c, "C17-D6", []storeGetter{{"eio", "socketStore", "get"}})
+
 	c.Rule("C17-D5", "a closed session is unknown afterwards: whatever the close reason, the Engine.IO close body calls or defers onClose(s.id) on every path, and newSocket wires that callback to the store's delete "+
 		"— a session that ended by CLOSE packet, transport drop or buffer overflow and stays in the table keeps answering its sid with 200 instead of error 1 (shared with C06-D2)", 2)
 	{
